@@ -1,5 +1,6 @@
 import LenaModel.Model.C01
 import LenaModel.Lemmas.C01
+import LenaModel.Props.C17
 /-! # C01 — Sequence and Source compute the left-to-right composition of their elements
 
 All theorems are about the model `LenaModel/Model/C01.lean` (generic part: any value type `α`, any
@@ -12,7 +13,11 @@ values that may end in an exception) — nothing is bounded.
 * `source_tail`, `source_move` — "... or placing them after the first element of a Source"
 * `empty_id`, `nodata_only_id` — "an empty Sequence is the identity"
 * `reject_at_construction`, `constructed_sound` — "an argument that cannot be converted to an element is
-                                 rejected with LenaTypeError when the sequence is constructed, never later" -/
+                                 rejected with LenaTypeError when the sequence is constructed, never later"
+* `toTree_build`, `spec_regroup` — the same for programs over the real vocabulary, as the model driver evaluates them
+* `mapS_mapS`, `mapS_total`, `filterS_total`, `fcSpec_total`, `sliceS_ofList`, `reverseS_ofList` — what "each
+                                 element's stream transformation" is for callables, Filter, fill/compute elements,
+                                 Slice and Reverse (values in order; which exception comes first) -/
 
 namespace Lena.C01
 open Lena.Flow
@@ -438,5 +443,327 @@ example :
     (mkSource [gen, inc, cnt]).toOption.map (fun s => observe s.call) = some (.ofList [2]) ∧
     (mkSource [gen, inc]).toOption.map (fun s => observe s.call) = some (.ofList [6, 7]) := by
   constructor <;> decide
+
+/-! ### the real vocabulary: programs as the driver evaluates them
+
+`Spec.toElement (.seq prog)` is what `drivers/C01.lean` runs for `Sequence(*prog)`; the theorems
+above are about `build` on bracketing trees.  They are the same thing. -/
+
+mutual
+theorem toTree_build : ∀ (s : Spec) (t : Tree Value), Spec.toTree s = .ok t → build t = Spec.toElement s
+  | .seq els, t, h => by
+    simp only [Spec.toTree] at h
+    cases hts : Spec.toTrees els with
+    | error e => simp [hts] at h
+    | ok ts =>
+      simp [hts] at h; subst h
+      have ih := toTrees_buildList els ts hts
+      simp only [build, ih, Spec.toElement]
+      cases Spec.toElements els with
+      | error e => rfl
+      | ok es => cases hm : mkSequence es <;> simp [hm, Except.map]
+  | .call f, t, h => by simp [Spec.toTree, Spec.toElement] at h; subst h; simp [build, Spec.toElement]
+  | .var n g, t, h => by simp [Spec.toTree, Spec.toElement] at h; subst h; simp [build, Spec.toElement]
+  | .filter p, t, h => by simp [Spec.toTree, Spec.toElement] at h; subst h; simp [build, Spec.toElement]
+  | .slice a b s, t, h => by
+    simp only [Spec.toTree] at h
+    cases he : Spec.toElement (.slice a b s) with
+    | error e => simp [he] at h
+    | ok el => simp [he] at h; subst h; simp [build]
+  | .count n, t, h => by simp [Spec.toTree, Spec.toElement] at h; subst h; simp [build, Spec.toElement]
+  | .runIf p i, t, h => by
+    simp only [Spec.toTree] at h
+    cases he : Spec.toElement (.runIf p i) with
+    | error e => simp [he] at h
+    | ok el => simp [he] at h; subst h; simp [build]
+  | .reverse, t, h => by simp [Spec.toTree, Spec.toElement] at h; subst h; simp [build, Spec.toElement]
+  | .end_, t, h => by simp [Spec.toTree, Spec.toElement] at h; subst h; simp [build, Spec.toElement]
+  | .acc k, t, h => by simp [Spec.toTree, Spec.toElement] at h; subst h; simp [build, Spec.toElement]
+  | .split b s, t, h => by
+    simp only [Spec.toTree] at h
+    cases he : Spec.toElement (.split b s) with
+    | error e => simp [he] at h
+    | ok el => simp [he] at h; subst h; simp [build]
+  | .runAdapter i, t, h => by
+    simp only [Spec.toTree] at h
+    cases he : Spec.toElement (.runAdapter i) with
+    | error e => simp [he] at h
+    | ok el => simp [he] at h; subst h; simp [build]
+  | .syn r c f p n, t, h => by simp [Spec.toTree, Spec.toElement] at h; subst h; simp [build, Spec.toElement]
+  | .junk, t, h => by simp [Spec.toTree, Spec.toElement] at h; subst h; simp [build, Spec.toElement]
+  | .setContext, t, h => by simp [Spec.toTree, Spec.toElement] at h; subst h; simp [build, Spec.toElement]
+  | .gen f, t, h => by simp [Spec.toTree, Spec.toElement] at h; subst h; simp [build, Spec.toElement]
+  | .iter f, t, h => by simp [Spec.toTree, Spec.toElement] at h; subst h; simp [build, Spec.toElement]
+theorem toTrees_buildList : ∀ (ss : List Spec) (ts : List (Tree Value)), Spec.toTrees ss = .ok ts →
+    buildList ts = Spec.toElements ss
+  | [], ts, h => by simp [Spec.toTrees] at h; subst h; simp [buildList, Spec.toElements]
+  | s :: ss, ts, h => by
+    simp only [Spec.toTrees] at h
+    cases ht : Spec.toTree s with
+    | error e => simp [ht] at h
+    | ok t =>
+      cases hts : Spec.toTrees ss with
+      | error e => simp [ht, hts] at h
+      | ok ts' =>
+        simp [ht, hts] at h; subst h
+        simp only [buildList, Spec.toElements, toTree_build s t ht, toTrees_buildList ss ts' hts]
+        cases Spec.toElement s with
+        | error e => rfl
+        | ok el => cases Spec.toElements ss <;> rfl
+end
+
+theorem toElements_append : ∀ (a b : List Spec) (ea eb : List (Element Value)),
+    Spec.toElements a = .ok ea → Spec.toElements b = .ok eb → Spec.toElements (a ++ b) = .ok (ea ++ eb)
+  | [], b, ea, eb, ha, hb => by
+    simp [Spec.toElements] at ha; subst ha; simpa using hb
+  | s :: a, b, ea, eb, ha, hb => by
+    simp only [Spec.toElements] at ha
+    cases hs : Spec.toElement s with
+    | error e => simp [hs] at ha
+    | ok el =>
+      cases hr : Spec.toElements a with
+      | error e => simp [hs, hr] at ha
+      | ok ea' =>
+        simp [hs, hr] at ha; subst ha
+        simp [Spec.toElements, hs, toElements_append a b ea' eb hr hb]
+
+theorem toElements_singleton (s : Spec) (el : Element Value) (h : Spec.toElement s = .ok el) :
+    Spec.toElements [s] = .ok [el] := by
+  simp [Spec.toElements, h]
+
+mutual
+theorem toTree_flatten : ∀ (s : Spec) (t : Tree Value), Spec.toTree s = .ok t →
+    Spec.toElements s.flat = .ok (flatten t)
+  | .seq els, t, h => by
+    simp only [Spec.toTree] at h
+    cases hts : Spec.toTrees els with
+    | error e => simp [hts] at h
+    | ok ts =>
+      simp [hts] at h; subst h
+      simpa [Spec.flat, flatten] using toTrees_flatten els ts hts
+  | .call f, t, h => by
+    simp only [Spec.toTree] at h
+    cases he : Spec.toElement (.call f) with
+    | error e => simp [he] at h
+    | ok el => simp [he] at h; subst h; simpa [Spec.flat, flatten] using toElements_singleton _ _ he
+  | .var n g, t, h => by
+    simp only [Spec.toTree] at h
+    cases he : Spec.toElement (.var n g) with
+    | error e => simp [he] at h
+    | ok el => simp [he] at h; subst h; simpa [Spec.flat, flatten] using toElements_singleton _ _ he
+  | .filter p, t, h => by
+    simp only [Spec.toTree] at h
+    cases he : Spec.toElement (.filter p) with
+    | error e => simp [he] at h
+    | ok el => simp [he] at h; subst h; simpa [Spec.flat, flatten] using toElements_singleton _ _ he
+  | .slice a b s, t, h => by
+    simp only [Spec.toTree] at h
+    cases he : Spec.toElement (.slice a b s) with
+    | error e => simp [he] at h
+    | ok el => simp [he] at h; subst h; simpa [Spec.flat, flatten] using toElements_singleton _ _ he
+  | .count n, t, h => by
+    simp only [Spec.toTree] at h
+    cases he : Spec.toElement (.count n) with
+    | error e => simp [he] at h
+    | ok el => simp [he] at h; subst h; simpa [Spec.flat, flatten] using toElements_singleton _ _ he
+  | .runIf p i, t, h => by
+    simp only [Spec.toTree] at h
+    cases he : Spec.toElement (.runIf p i) with
+    | error e => simp [he] at h
+    | ok el => simp [he] at h; subst h; simpa [Spec.flat, flatten] using toElements_singleton _ _ he
+  | .reverse, t, h => by
+    simp only [Spec.toTree] at h
+    cases he : Spec.toElement .reverse with
+    | error e => simp [he] at h
+    | ok el => simp [he] at h; subst h; simpa [Spec.flat, flatten] using toElements_singleton _ _ he
+  | .end_, t, h => by
+    simp only [Spec.toTree] at h
+    cases he : Spec.toElement .end_ with
+    | error e => simp [he] at h
+    | ok el => simp [he] at h; subst h; simpa [Spec.flat, flatten] using toElements_singleton _ _ he
+  | .acc k, t, h => by
+    simp only [Spec.toTree] at h
+    cases he : Spec.toElement (.acc k) with
+    | error e => simp [he] at h
+    | ok el => simp [he] at h; subst h; simpa [Spec.flat, flatten] using toElements_singleton _ _ he
+  | .split b s, t, h => by
+    simp only [Spec.toTree] at h
+    cases he : Spec.toElement (.split b s) with
+    | error e => simp [he] at h
+    | ok el => simp [he] at h; subst h; simpa [Spec.flat, flatten] using toElements_singleton _ _ he
+  | .runAdapter i, t, h => by
+    simp only [Spec.toTree] at h
+    cases he : Spec.toElement (.runAdapter i) with
+    | error e => simp [he] at h
+    | ok el => simp [he] at h; subst h; simpa [Spec.flat, flatten] using toElements_singleton _ _ he
+  | .syn r c f p n, t, h => by
+    simp only [Spec.toTree] at h
+    cases he : Spec.toElement (.syn r c f p n) with
+    | error e => simp [he] at h
+    | ok el => simp [he] at h; subst h; simpa [Spec.flat, flatten] using toElements_singleton _ _ he
+  | .junk, t, h => by
+    simp only [Spec.toTree] at h
+    cases he : Spec.toElement .junk with
+    | error e => simp [he] at h
+    | ok el => simp [he] at h; subst h; simpa [Spec.flat, flatten] using toElements_singleton _ _ he
+  | .setContext, t, h => by
+    simp only [Spec.toTree] at h
+    cases he : Spec.toElement .setContext with
+    | error e => simp [he] at h
+    | ok el => simp [he] at h; subst h; simpa [Spec.flat, flatten] using toElements_singleton _ _ he
+  | .gen f, t, h => by
+    simp only [Spec.toTree] at h
+    cases he : Spec.toElement (.gen f) with
+    | error e => simp [he] at h
+    | ok el => simp [he] at h; subst h; simpa [Spec.flat, flatten] using toElements_singleton _ _ he
+  | .iter f, t, h => by
+    simp only [Spec.toTree] at h
+    cases he : Spec.toElement (.iter f) with
+    | error e => simp [he] at h
+    | ok el => simp [he] at h; subst h; simpa [Spec.flat, flatten] using toElements_singleton _ _ he
+theorem toTrees_flatten : ∀ (ss : List Spec) (ts : List (Tree Value)), Spec.toTrees ss = .ok ts →
+    Spec.toElements (Spec.flats ss) = .ok (flattenList ts)
+  | [], ts, h => by simp [Spec.toTrees] at h; subst h; simp [Spec.flats, flattenList, Spec.toElements]
+  | s :: ss, ts, h => by
+    simp only [Spec.toTrees] at h
+    cases ht : Spec.toTree s with
+    | error e => simp [ht] at h
+    | ok t =>
+      cases hts : Spec.toTrees ss with
+      | error e => simp [ht, hts] at h
+      | ok ts' =>
+        simp [ht, hts] at h; subst h
+        simp only [Spec.flats, flattenList]
+        exact toElements_append _ _ _ _ (toTree_flatten s t ht) (toTrees_flatten ss ts' hts)
+end
+
+/-- **Regrouping, for programs over the real vocabulary.**  Two programs whose element
+constructors all succeed and that differ only in how their top-level elements are grouped into
+nested `Sequence(...)` calls give the same outcome: the same `LenaTypeError` at construction, or
+sequences with the same `run`. -/
+theorem spec_regroup (p q : List Spec) (tp tq : List (Tree Value))
+    (hp : Spec.toTrees p = .ok tp) (hq : Spec.toTrees q = .ok tq) (h : Spec.flats p = Spec.flats q) :
+    SameOutcome (Spec.toElement (.seq p)) (Spec.toElement (.seq q)) := by
+  have h1 : Spec.toTree (.seq p) = .ok (.node tp) := by simp [Spec.toTree, hp]
+  have h2 : Spec.toTree (.seq q) = .ok (.node tq) := by simp [Spec.toTree, hq]
+  rw [← toTree_build _ _ h1, ← toTree_build _ _ h2]
+  apply regroup_any_two
+  have e1 := toTrees_flatten p tp hp
+  have e2 := toTrees_flatten q tq hq
+  rw [h, e2] at e1
+  exact (Except.ok.inj e1).symm
+
+example : ∃ tp tq,
+    Spec.toTrees [.call .inc, .seq [.seq [], .seq [.slice none (some (-1)) none, .acc .sum]]] = .ok tp ∧
+    Spec.toTrees [.seq [.call .inc, .slice none (some (-1)) none], .acc .sum] = .ok tq ∧
+    Spec.flats [.call .inc, .seq [.seq [], .seq [.slice none (some (-1)) none, .acc .sum]]] =
+      Spec.flats [.seq [.call .inc, .slice none (some (-1)) none], .acc .sum] :=
+  ⟨_, _, rfl, rfl, rfl⟩
+
+
+/-! ### the stream transformations of the vocabulary -/
+
+theorem mapGo_mapGo (f g : α → Except Exc α) (t : Option Exc) : ∀ (xs : List α),
+    mapGo g (mapGo f t xs).term (mapGo f t xs).vals = mapGo (fun x => f x >>= g) t xs
+  | [] => rfl
+  | x :: xs => by
+    have ih := mapGo_mapGo f g t xs
+    simp only [mapGo, bind, Except.bind] at ih ⊢
+    cases hf : f x with
+    | error e => rfl
+    | ok y =>
+      simp only [Strm.cons, mapGo]
+      cases hg : g y with
+      | error e => rfl
+      | ok z => simp only [ih]
+
+/-- **Two callables in a row are the callable composition, value by value** — with Python's lazy
+evaluation the second callable sees the first value before the first callable sees the second, and
+the stream model agrees: the values yielded and the exception that ends the run are those of
+`x ↦ g(f(x))` mapped over the flow. -/
+theorem mapS_mapS (f g : α → Except Exc α) (s : Strm α) :
+    mapS g (mapS f s) = mapS (fun x => f x >>= g) s :=
+  mapGo_mapGo f g s.term s.vals
+
+theorem mapGo_total (f : α → Except Exc α) (g : α → α) (t : Option Exc) : ∀ (xs : List α),
+    (∀ x ∈ xs, f x = .ok (g x)) → mapGo f t xs = ⟨xs.map g, t⟩
+  | [], _ => rfl
+  | x :: xs, h => by
+    have hx := h x (by simp)
+    have ih := mapGo_total f g t xs (fun y hy => h y (by simp [hy]))
+    simp only [mapGo, hx, ih, Strm.cons, List.map_cons]
+
+/-- a callable that never raises maps the values and passes the end of the input on -/
+theorem mapS_total (f : α → Except Exc α) (g : α → α) (s : Strm α) (h : ∀ x ∈ s.vals, f x = .ok (g x)) :
+    mapS f s = ⟨s.vals.map g, s.term⟩ :=
+  mapGo_total f g s.term s.vals h
+
+theorem filterGo_total (p : α → Except Exc Bool) (q : α → Bool) (t : Option Exc) : ∀ (xs : List α),
+    (∀ x ∈ xs, p x = .ok (q x)) → filterGo p t xs = ⟨xs.filter q, t⟩
+  | [], _ => rfl
+  | x :: xs, h => by
+    have hx := h x (by simp)
+    have ih := filterGo_total p q t xs (fun y hy => h y (by simp [hy]))
+    simp only [filterGo, hx, ih, List.filter_cons]
+    cases q x <;> simp [Strm.cons]
+
+/-- `Filter` with a selector that never raises keeps exactly the selected values, in order -/
+theorem filterS_total (p : α → Except Exc Bool) (q : α → Bool) (s : Strm α)
+    (h : ∀ x ∈ s.vals, p x = .ok (q x)) : filterS p s = ⟨s.vals.filter q, s.term⟩ :=
+  filterGo_total p q s.term s.vals h
+
+/-- a fill/compute element whose `fill` never raises: `Run._fc_run` computes after the whole flow
+was filled, in order; an exception of the input is raised by the call itself -/
+theorem fcSpec_total (e : Element α) (hfill : ∀ h x, e.fillDen h x = .ok ()) (t : Option Exc) :
+    ∀ (xs h : List α), fcSpec e t h xs =
+      match t with
+      | some err => .error err
+      | none => e.computeDen (h ++ xs)
+  | [], h => by cases t <;> simp [fcSpec]
+  | x :: xs, h => by
+    simp only [fcSpec, hfill]
+    rw [fcSpec_total e hfill t xs (h ++ [x])]
+    cases t <;> simp
+
+/-- **`Slice` inside a sequence is list slicing of what the previous element yields**: on a flow
+that ends normally, `Slice(start, stop, step).run` yields `xs[start:stop:step]` (C17), for every
+combination of `None`, negative and non-negative indices and every step `≥ 1` -/
+theorem sliceS_ofList (start stop step : Option Int) (hs : Lena.C17.GoodStep step) (xs : List α) :
+    sliceS (Lena.C17.mkSlice start stop step) (.ofList xs)
+      = .ofList (Lena.C17.pySlice xs start stop ((step.getD 1).toNat)) := by
+  have h := Lena.C17.slice_run_eq_pyslice start stop step hs xs
+  cases hk : Lena.C17.mkSlice start stop step with
+  | valueError => rw [hk] at h; simp [Lena.C17.sliceRun] at h
+  | islice a b st =>
+    rw [hk] at h
+    simp only [Lena.C17.sliceRun, Option.some.injEq, Lena.C17.Out.ok.injEq] at h
+    simp only [sliceS, Strm.ofList, h]
+    cases b with
+    | none => rfl
+    | some b => by_cases hc : max a b ≤ xs.length <;> simp [hc]
+  | negative a b st =>
+    rw [hk] at h
+    simp only [Lena.C17.sliceRun] at h
+    cases hr : Lena.C17.runNegative a b xs with
+    | indexError => rw [hr] at h; simp at h
+    | ok ys =>
+      rw [hr] at h
+      simp only [Option.some.injEq, Lena.C17.Out.ok.injEq] at h
+      simp only [sliceS, Strm.ofList, hr, h]
+      cases negMode a b xs.length <;> rfl
+
+/-- `Reverse` on a flow that ends normally yields the values last to first -/
+theorem reverseS_ofList (xs : List α) : reverseS (.ofList xs) = .ofList xs.reverse := by
+  simp [reverseS, Strm.ofList, Lena.C17.reverse_spec]
+
+/-- an exception of the input flow is raised by `Reverse` and `End` before anything is yielded -/
+theorem reverseS_fail (xs : List α) (e : Exc) : reverseS ⟨xs, some e⟩ = .fail e ∧ endS ⟨xs, some e⟩ = .fail e := by
+  simp [reverseS, endS]
+
+example : sliceS (Lena.C17.mkSlice (some (-3)) (some 5) (some 2)) (.ofList [0, 1, 2, 3, 4, 5])
+    = .ofList [3] := by decide
+
+example : mapS (fun x => if x = 2 then .error .valueError else .ok (x + 1)) (.ofList [1, 2, 3])
+    = (⟨[2], some .valueError⟩ : Strm Nat) := by decide
 
 end Lena.C01
